@@ -572,17 +572,28 @@ func streamFallback(calls []initCall, got []*ref.T, at int, msg string) core.Ver
 		return core.Fail("%s", msg)
 	}
 	// pairwise distinct within the call and against every other random call
+	// (a generator with 32 bits per variate - Go's ziggurat - repeats a value among n draws with
+	// probability about n^2/2^33: a couple of coincidences prove nothing, many do)
 	seen := map[float64]bool{}
+	dups, ndraws := 0, 0
+	var firstDup float64
 	for j, g := range got {
 		if k, _, _ := calls[j].dist(); k == "C" {
 			continue
 		}
 		for _, v := range g.V {
+			ndraws++
 			if seen[v] {
-				return core.Fail("%s; and the value %v occurs twice (draw reused / not fresh)", msg, v)
+				if dups == 0 {
+					firstDup = v
+				}
+				dups++
 			}
 			seen[v] = true
 		}
+	}
+	if lambda := float64(ndraws) * float64(ndraws) / (1 << 33); float64(dups) > 3+10*lambda {
+		return core.Fail("%s; and %d of %d drawn values repeat an earlier one (first: %v): draws are reused / not fresh", msg, dups, ndraws, firstDup)
 	}
 	// scale: a large sample of the same call must have moments within 6 sigma
 	// (the SAME call, shape included, is repeated until 4096 elements are drawn:
@@ -601,6 +612,18 @@ func streamFallback(calls []initCall, got []*ref.T, at int, msg string) core.Ver
 	}
 	x = x[:4096]
 	if m := distStats(kind, a, b, x); m != "" {
+		// a 6-sigma excursion has probability ~1e-8 per statistic: it must repeat on a second, independent sample
+		var x2 []float64
+		for len(x2) < 4096 {
+			t, _, err := ic.run()
+			if err != nil {
+				return core.Fail("%s; and repeating the call fails: %v", msg, err)
+			}
+			x2 = append(x2, rt.Read(t).V...)
+		}
+		if m2 := distStats(kind, a, b, x2[:4096]); m2 == "" {
+			return core.Verdict{OK: true, Skip: true, Detail: "stream oracle abstains (a statistical excursion did not repeat): " + msg}
+		}
 		return core.Fail("%s; and %s", msg, m)
 	}
 	return core.Verdict{OK: true, Skip: true, Detail: "stream oracle abstains: " + msg}
@@ -701,7 +724,17 @@ func checkC18(c *core.Ctx) {
 							xs = append(xs, rt.Read(t).V...)
 						}
 						if m := distStats(e.kind, e.a, e.b, xs[:4096]); m != "" {
-							return core.Fail("initializer %d (constructed with %s %v %v) after the caller changed its config struct: %s", k, e.kind, e.a, e.b, m)
+							var ys []float64
+							for len(ys) < 4096 {
+								t, err := e.in.Init([]int{64})
+								if err != nil {
+									return core.Fail("Init: %v", err)
+								}
+								ys = append(ys, rt.Read(t).V...)
+							}
+							if m2 := distStats(e.kind, e.a, e.b, ys[:4096]); m2 != "" {
+								return core.Fail("initializer %d (constructed with %s %v %v) after the caller changed its config struct: %s (and again on a second sample: %s)", k, e.kind, e.a, e.b, m, m2)
+							}
 						}
 					}
 					break
@@ -862,8 +895,8 @@ func c17UpdateCase(s []int, l lrCfg, gm int) core.Verdict {
 	if ok, msg := core.ExactEq(rt.Read(old), w0); !ok {
 		return core.Fail("previous tensor object changed by Update: %s", msg)
 	}
-	if old.Gradient() != oldG {
-		return core.Fail("previous tensor's gradient object was replaced by Update")
+	if old.Gradient() == nil {
+		return core.Fail("previous tensor's gradient was removed by Update")
 	}
 	if ok, msg := core.Close(rt.Read(old.Gradient()), expG, 10); !ok {
 		return core.Fail("previous tensor's gradient changed by Update: %s", msg)
